@@ -362,6 +362,29 @@ def badkind(rng, kind):
     return kind
 
 
+def hostile_app(rng):
+    """an application description with hostile strings (lengths around the 255-byte host limit, invalid UTF-8, runs of
+    continuation bytes, multi-byte runes straddling the limit) and extreme numbers"""
+    def hstr():
+        k = rng.random()
+        n = rng.choice([0, 1, 254, 255, 256, 257, 300, 600])
+        if k < 0.25:
+            b = bytes([0x80]) * n
+        elif k < 0.45:
+            b = ("é" * n).encode()[:n + rng.randint(0, 2)]
+        elif k < 0.6:
+            b = ("a" * max(n - 2, 0)).encode() + "€".encode()
+        elif k < 0.75:
+            b = bytes(rng.randrange(256) for _ in range(n))
+        else:
+            b = ("h" * n).encode()
+        return b.hex() or "-"
+    toks = ["proc apphostile sq=%d" % rng.choice([0, 1, 1000, 100000, 10 ** 6, 10 ** 6 + 1, 2 ** 31, 2 ** 40, 2 ** 62, 2 ** 64 - 1])]
+    for k in rng.sample(["dh", "host", "name", "dk", "ver", "lang", "rc", "tok", "lic"], rng.randint(1, 4)):
+        toks.append("%s=%s" % (k, hstr()))
+    return " ".join(toks)
+
+
 def malformed_history(rng):
     """well-formed traffic for 2-3 applications; corrupt transaction / app / span messages addressed to a victim run (whose
     own payloads are then not compared) and to unknown run ids, before, between and after the well-formed traffic"""
@@ -382,6 +405,14 @@ def malformed_history(rng):
             spec = g.ops.pop().split(" ", 3)[3]
             kind = " kind=span" if rng.random() < 0.3 else ""
             g.ops.append("proc mut %s seed=%d%s %s" % (tgt if tgt else "rX", rng.randrange(1, 2 ** 48), kind, spec))
+        elif k < 0.5:
+            g.ops.append(hostile_app(rng))
+        elif k < 0.53:
+            # a burst of corrupt transaction messages: the processor must drop each promptly, however many there are
+            for _b in range(rng.randint(20, 40)):
+                g.txn(victim)
+                spec = g.ops.pop().split(" ", 3)[3]
+                g.ops.append("proc mut %s seed=%d %s" % (victim, rng.randrange(1, 2 ** 48), spec))
         elif k < 0.75:
             # a damaged log event (shorter than 4 bytes) in an otherwise well-formed message for a healthy run
             g.txn(rng.choice(others), shortlog=rng.random() < 0.35)
